@@ -211,6 +211,61 @@ def rule_visit8(prog, rep, tier, anchor="ast_utils.RewriteAtQuery", caller="conf
                   "the node %s compared is the node that is written" % caller)
 
 
+_STMT_KINDS = tuple(n for n in dir(ast) if isinstance(getattr(ast, n), type) and issubclass(getattr(ast, n), ast.stmt) and n != "stmt")
+
+
+def rule_visit9(prog, rep, tier):
+    """VISIT-9 (C19, C06): a `NodeTransformer` handler for a *statement* kind that answers None deletes such a statement wherever the
+    transformer meets one - NodeTransformer descends into every block by default.  Where the statement was the only one of its block
+    (`try: import ujson as json` / `except ImportError: import json`) the block is left empty and the module no longer unparses to
+    something Python accepts.  Decided for every NodeTransformer subclass of the package: a handler of a statement kind has no path
+    that returns None / falls off its end - unless the class keeps the transformer at the top level (a `generic_visit` override that
+    does not descend)."""
+    n = 0
+    for m_ in prog.modules.values():
+        for ci in m_.classes.values():
+            bases = {b.id if isinstance(b, ast.Name) else getattr(b, "attr", "") for b in ci.node.bases}
+            if "NodeTransformer" not in bases:
+                continue
+            gv = ci.methods.get("generic_visit")
+            stays_on_top = gv is not None and not any(isinstance(c, ast.Call) and isinstance(c.func, ast.Attribute) and c.func.attr == "generic_visit" for c in ast.walk(gv.node))
+            vm = ci.methods.get("visit_Module")
+            if vm is not None and not any(isinstance(c, ast.Call) and isinstance(c.func, ast.Attribute) and c.func.attr in ("generic_visit", "visit") for c in ast.walk(vm.node)):
+                stays_on_top = True   # the module handler does its work on the top-level list and visits nothing below it
+            handlers = dict(ci.methods)
+            for st in ci.node.body:   # aliases: `visit_ImportFrom = visit_Import`
+                if isinstance(st, ast.Assign) and isinstance(st.value, ast.Name) and st.value.id in ci.methods:
+                    for t in st.targets:
+                        if isinstance(t, ast.Name):
+                            handlers[t.id] = ci.methods[st.value.id]
+            for name, m in sorted(handlers.items()):
+                if not name.startswith("visit_") or name[6:] not in _STMT_KINDS:
+                    continue
+                n += 1
+                deletes = None
+                for path in CFG(m.node).paths():
+                    if path[-1][0].kind != "RETURN":
+                        continue   # a path that raises deletes nothing
+                    stmts = [nd.stmt for nd, _l in path if nd.stmt is not None]
+                    stmt = stmts[-1] if stmts else None
+                    if isinstance(stmt, ast.Return):
+                        if stmt.value is None or (isinstance(stmt.value, ast.Constant) and stmt.value.value is None):
+                            deletes = stmt
+                    else:
+                        deletes = m.node   # falls off the end of the handler: None
+                inst = "%s.%s" % (ci.qualname, name)
+                if deletes is not None and not stays_on_top:
+                    rep.violation(Finding(
+                        "VISIT-9", inst, "statement-deleted-at-any-depth:%s" % name[6:],
+                        "%s answers None for a %s: NodeTransformer descends into every block, so such a statement is removed wherever it stands - where it was the only "
+                        "statement of its block (`try: import x` / `except ImportError: import y`) the block is left empty and the text rendered from the tree does not parse"
+                        % (inst, name[6:]), loc(prog, deletes)))
+                else:
+                    rep.holds("VISIT-9", inst, loc(prog, m.node), "never answers None" if deletes is None else "the transformer does not descend")
+    if n == 0:
+        rep.holds("VISIT-9", "no NodeTransformer of the package has a handler for a statement kind that could delete it", "", "")
+
+
 def rule_visit2(prog, rep, tier, anchor="ast_utils.RewriteAtQuery"):
     """VISIT-2: replacement happens at most once: every site that sets replaced=True is guarded by `not self.replaced`."""
     ci = prog.cls(anchor)
